@@ -170,6 +170,31 @@ def gen_mdp_spec(rng, *, proper, max_states=6, max_actions=3, discounts=(0.5, 0.
                 trans=trans, init=init, proper=proper)
 
 
+def rare_catastrophe_spec(rng, kinds=KEY_KINDS):
+    """A branch of probability 1e-9..1e-8 into a pit whose way out costs 1e10..1e11: ignoring the branch changes the
+    optimal value by 1..100 and (for some parameters) the optimal action.  Legal for every planner that claims all finite
+    MDPs.  State 0 chooses between a safe route and the gamble, optionally after a short corridor; weights stay 'eighths'
+    (floats here)."""
+    q = rng.choice((1e-9, 1e-9, 5e-9, 1e-8))
+    K = rng.choice((1e10, 1e10, 1e11))
+    safe = rng.choice((3.0, 5.0, 20.0, 200.0, 2000.0))
+    gamma = rng.choice((1.0, 1.0, 0.95, 0.99))
+    pre = rng.randint(0, 2)                     # corridor states before the decision state
+    n = pre + 2                                 # corridor, decision state, pit
+    dec, pit, goal = pre, pre + 1, pre + 2
+    trans = []
+    for s in range(pre):
+        trans.append([s, 0, [[s + 1, 8, -1.0]]])
+    order = rng.random() < 0.5
+    a_safe, a_gamble = (0, 1) if order else (1, 0)
+    outs = {a_safe: [[goal, 8, -safe]], a_gamble: sorted([[goal, 8 - 8 * q, -1.0], [pit, 8 * q, -1.0]])}
+    for a in (0, 1):
+        trans.append([dec, a, outs[a]])
+    trans.append([pit, rng.randrange(2), [[goal, 8, -K]]])
+    trans.append([goal, 0, [[goal, 8, 0.0]]])
+    return dict(kind=rng.choice(kinds), n=n, absorbing=[goal], nA=2, gamma=gamma, trans=trans, init=[[0, 8]], proper=True)
+
+
 class MDPView:
     """Lookup tables built from a spec (ids only)."""
 
@@ -205,7 +230,7 @@ class MDPView:
         return min(rs), max(rs)
 
 
-def make_mdp(view, ctx=None, dist='dict', alias='fresh', explicit_lists=False, stored_dists=False):
+def make_mdp(view, ctx=None, dist=None, alias='fresh', explicit_lists=False, stored_dists=False, init_form=None):
     """Expose the spec through msdm's QuickTabularMDP.  `ctx` (optional)
     receives call-back notifications: ctx.cb(name, *ids).
 
@@ -232,6 +257,21 @@ def make_mdp(view, ctx=None, dist='dict', alias='fresh', explicit_lists=False, s
     store = {}
     holder = dict(view=view)      # the table the probabilities are read from (update_model_in_place swaps it)
 
+    if dist is None:
+        # a quarter of the models write their distributions with distribution arithmetic (a pure function of the spec)
+        dist = 'mixture' if (view.n + 3 * len(view.spec['trans'])) % 4 == 0 else 'dict'
+
+    def build(pairs):
+        """the distribution object for [(key, probability)]: a dict literal, or (dist='mixture') the way users write noisy
+        transitions, point masses scaled and mixed with `|` - same events, same probabilities (1.0 * p is exact)"""
+        if dist == 'mixture' and len(pairs) > 1:
+            d = None
+            for k, p in pairs:
+                part = DictDistribution({k: 1.0}) * p
+                d = part if d is None else (d | part)
+            return d
+        return DictDistribution(dict(pairs))
+
     def next_state_dist(s, a):
         si, ai = sid[s], aid[a]
         cb('next_state_dist', si, ai)
@@ -239,7 +279,7 @@ def make_mdp(view, ctx=None, dist='dict', alias='fresh', explicit_lists=False, s
             if (si, ai) not in store:
                 store[si, ai] = DictDistribution({sk[t]: p for t, p in holder['view'].Tall[si, ai]})
             return store[si, ai]
-        return DictDistribution({sk[t]: p for t, p in holder['view'].Tall[si, ai]})
+        return build([(sk[t], p) for t, p in holder['view'].Tall[si, ai]])
 
     def reward(s, a, ns):
         cb('reward', sid[s], aid[a], sid[ns])
@@ -261,15 +301,31 @@ def make_mdp(view, ctx=None, dist='dict', alias='fresh', explicit_lists=False, s
 
     def initial_state_dist():
         cb('initial_state_dist')
-        return DictDistribution({sk[s]: p for s, p in view.init.items()})
+        return build([(sk[s], p) for s, p in view.init.items()])
 
     def is_absorbing(s):
         cb('is_absorbing', sid[s])
         return sid[s] in view.absorbing
 
+    # the three ways QuickTabularMDP accepts the initial states (user models use all of them); which one is a pure
+    # function of the spec: a call-back, a distribution object, or - for a single initial state - initial_state=<key>
+    form = init_form if init_form is not None else (view.n * 7 + view.spec['nA'] * 3 + len(view.spec['trans'])) % 3
+    if form == 2 and len(view.init) == 1:
+        init_kw = dict(initial_state=sk[next(iter(view.init))])
+    elif form >= 1:
+        init_kw = dict(initial_state_dist=build([(sk[s], p) for s, p in view.init.items()]))
+    else:
+        init_kw = dict(initial_state_dist=initial_state_dist)
     m = QuickTabularMDP(next_state_dist=next_state_dist, reward=reward, actions=actions,
-                        initial_state_dist=initial_state_dist, is_absorbing=is_absorbing,
-                        discount_rate=view.gamma)
+                        is_absorbing=is_absorbing, discount_rate=view.gamma, **init_kw)
+    if 'initial_state' in init_kw or not callable(init_kw.get('initial_state_dist')):
+        # whatever QuickMDP's constructor made of the argument stays in charge; the call-back seam is told about the call
+        made = m._initial_state_dist
+
+        def told():
+            cb('initial_state_dist')
+            return made()
+        m._initial_state_dist = told
     if explicit_lists:
         order = list(range(view.N))
         if explicit_lists == 'swap' and view.N >= 4:
@@ -455,7 +511,18 @@ def gen_graph_spec(rng, kinds=KEY_KINDS, max_states=8, big=False, corridor=False
     for s in range(n):
         for a in sorted(rng.sample(range(nA), rng.randint(1 if not big else 3, nA))):
             edges.append([s, a, rng.randrange(n), rng.choice(costs)])
-    return dict(kind=rng.choice(kinds), n=n, nA=nA, goals=goals, edges=edges, src=rng.randrange(n))
+    spec = dict(kind=rng.choice(kinds), n=n, nA=nA, goals=goals, edges=edges, src=rng.randrange(n))
+    u = rng.random()
+    if u < 0.5:
+        spec['intcost'] = True        # the model's reward function returns Python ints (-1), not floats (-1.0)
+        if u < 0.03:
+            # every edge out of the source costs 2**53 more: path costs are then exact only in integer arithmetic
+            # (in doubles 2**53 + 1 == 2**53), and routes differ by 1 in 9e15
+            for e in edges:
+                if e[0] == spec['src']:
+                    e[3] += 2 ** 53
+            spec['giant'] = True
+    return spec
 
 
 class GraphView:
@@ -480,7 +547,8 @@ def make_graph_mdp(view, rep):
     from msdm.core.mdp import QuickTabularMDP
     from msdm.core.distributions import DictDistribution, UniformDistribution, DeterministicDistribution
     sk, ak, sid, aid, E = view.sk, view.ak, view.sid, view.aid, view.E
-    kw = dict(reward=lambda s, a, ns: -float(E[sid[s], aid[a]][1]),
+    num = int if view.spec.get('intcost') else float
+    kw = dict(reward=lambda s, a, ns: -num(E[sid[s], aid[a]][1]),
               actions=lambda s: [ak[a] for a in view.A.get(sid[s], [])],
               is_absorbing=lambda s: sid[s] in view.goals)
     nxt = lambda s, a: sk[E[sid[s], aid[a]][0]]
